@@ -18,7 +18,6 @@ pub open spec fn hop_swap_msg(pair: Seq<char>, offer: Asset, max_spread: Option<
 //%end
 
 //%fn contracts/halo-router/src/operations.rs | - | execute_swap_operation
-//%%rewrite #1 /Addr::unchecked\(pair_info\.contract_addr\)/ => addr_unchecked_string(pair_info.contract_addr) ## shim: Addr::unchecked(String) has the argument as its text
 //%%sig
     ensures
         /*[C14,C13 hop.only-self]*/ r is Ok ==> env.contract.address.0@ == info.sender.0@,
